@@ -174,6 +174,20 @@ CHECKS["C18"] = (
     "DESIGN.md §4 C18",
 )
 
+CHECKS["C04"] = (
+    "E-CH",
+    "CrossHair/z3 exhaustive exploration of source-presence vectors (and argv orders) with a symbolic object-channel int, real files and environment variables per path, compared with a reference fold",
+    "Bounded model checking of the real precedence code. For four key kinds (flat, nested, list with '+' appends, dict with item "
+    "assignments), four parse methods and the three default_env modes the solver enumerates every subset of up to nine sources "
+    "(defaults, default config file, second one through a glob pattern, environment config, environment variable, namespace=, --cfg "
+    "text, option, '+' append / dict item / second option, second --cfg text) - and, in the thorough tier, all 24 orders of the "
+    "command line items - with the namespace value a symbolic int; files and environment variables are really written per path and "
+    "the final value of the key is compared with a 25-line fold over the sources in the documented order (replace, append, set item).",
+    "Trusted: the reference fold (namespace= folded between environment and command line; a dict in a config replaces the dict). "
+    "Outside: values in text sources are concrete; config arguments inside sub-parsers, URLs/fsspec, jsonnet ext_vars.",
+    "DESIGN.md §4 C04",
+)
+
 NOT_APPLICABLE = {
     "C13": "the resolver's only input is source code on disk (inspect.getsource/ast.parse/import); a symbolic program cannot be "
     "represented for that code and types/defaults are part of the program, so no dimension of the quantifier can be a solver variable",
